@@ -184,6 +184,7 @@ inductive Op where
   | setCommit (v : Nat)
   | timer
   | reopen
+  | setTermVote              -- `setTermAndVote(term, vote)`: stores the whole meta dict at once
 deriving DecidableEq, Repr
 
 def padTo (bs : Bytes) (n : Nat) : Bytes := bs ++ zeros (n - bs.length)
@@ -321,11 +322,14 @@ def FJ.delToOld (j : FJ) (n : Nat) : Except Err (FJ × List Prim) :=
     | .error x => .error x
     | .ok (j2, p2) => .ok (j2, p1 ++ p2)
 
+/-- `MetaStorer.storeMeta(self.__meta)` + `metaSaved = True`: tmp create, write, move. -/
+def FJ.storeMetaNow (j : FJ) : FJ × List Prim :=
+  let ps : List Prim := [.tmpCreate, .tmpWrite j.mci, .tmpMove]
+  ({ j with disk := applyPrims j.disk ps, metaSaved := true }, ps)
+
+/-- `onOneSecondTimer`. -/
 def FJ.timer (j : FJ) : FJ × List Prim :=
-  if j.metaSaved then (j, [])
-  else
-    let ps : List Prim := [.tmpCreate, .tmpWrite j.mci, .tmpMove]
-    ({ j with disk := applyPrims j.disk ps, metaSaved := true }, ps)
+  if j.metaSaved then (j, []) else j.storeMetaNow
 
 def FJ.step (j : FJ) : Op → Except Err (FJ × List Prim)
   | .add e => j.add e
@@ -335,6 +339,10 @@ def FJ.step (j : FJ) : Op → Except Err (FJ × List Prim)
   | .setCommit v => .ok ({ j with mci := some v, metaSaved := false }, [])
   | .timer => .ok j.timer
   | .reopen => openDisk j.ver j.disk
+  -- `setTermAndVote` (added by the repair of D16): term and vote themselves are outside this model
+  -- (`.meta` is abstracted to the commit index); what matters here is that the WHOLE meta dict,
+  -- a pending commit index included, is stored immediately.
+  | .setTermVote => .ok j.storeMetaNow
 
 /-- `getRaftCommitIndex`. -/
 def FJ.commitIndex (j : FJ) : Nat := j.mci.getD 1
